@@ -60,11 +60,11 @@ pub enum St {
     Bankrupt,
 }
 
-struct Sc {
-    w: World,
-    s: Store,
+pub struct Sc {
+    pub w: World,
+    pub s: Store,
     /// second account of A's authority
-    other: Pubkey,
+    pub other: Pubkey,
 }
 
 fn bank(label: &str, mint: &str, dec: u8, usd_e8: i64) -> BankSpec {
@@ -76,7 +76,7 @@ fn bank(label: &str, mint: &str, dec: u8, usd_e8: i64) -> BankSpec {
     BankSpec { label: label.into(), mint: MintSpec::spl(mint, dec), oracle: OracleSpec::pyth_usd(usd_e8), config: cfg }
 }
 
-fn scene(st: St) -> Sc {
+pub fn scene(st: St) -> Sc {
     let (w, mut s) = build_world(&WorldSpec::new(&format!("C11{:?}", st), vec![bank("FA", "c11a", 6, 100_000_000), bank("FL", "c11l", 9, 2_500_000_000)], &["a", "liq", "seeder"]));
     let go = |s: &mut Store, a: Action| {
         let r = act::apply(&w, s, &a);
@@ -127,11 +127,11 @@ fn scene(st: St) -> Sc {
     Sc { w, s, other }
 }
 
-fn proxy() -> Pubkey {
+pub fn proxy() -> Pubkey {
     key("c11:proxy_program")
 }
 
-fn build_ix(sc: &Sc, sym: Sym) -> Ix {
+pub fn build_ix(sc: &Sc, sym: Sym) -> Ix {
     let w = &sc.w;
     let s = &sc.s;
     let acct = w.users[0].account;
@@ -170,13 +170,13 @@ fn build_ix(sc: &Sc, sym: Sym) -> Ix {
     }
 }
 
-fn alphabet(max_len: usize) -> Vec<Sym> {
+pub fn alphabet(max_len: usize) -> Vec<Sym> {
     let mut v: Vec<Sym> = (0..=max_len as u8).map(Sym::Start).collect();
     v.extend([Sym::End, Sym::EndHeld, Sym::EndOther, Sym::EndOtherMentioningA, Sym::EndViaCpi, Sym::StartViaCpi(2), Sym::BorrowSmall, Sym::BorrowHuge, Sym::WithdrawSmall, Sym::WithdrawMost, Sym::RepayAll, Sym::Deposit, Sym::Noop, Sym::Liquidate, Sym::Bankruptcy, Sym::StartLiquidation]);
     v
 }
 
-fn shapes(alpha: &[Sym], max_len: usize) -> Vec<Vec<Sym>> {
+pub fn shapes(alpha: &[Sym], max_len: usize) -> Vec<Vec<Sym>> {
     let mut all: Vec<Vec<Sym>> = vec![];
     let mut frontier: Vec<Vec<Sym>> = vec![vec![]];
     for _ in 0..max_len {
@@ -194,12 +194,12 @@ fn shapes(alpha: &[Sym], max_len: usize) -> Vec<Vec<Sym>> {
     all
 }
 
-struct Out {
-    class: String,
-    found: Vec<Found>,
+pub struct Out {
+    pub class: String,
+    pub found: Vec<Found>,
 }
 
-fn run_shape(sc: &Sc, st: St, list: &[Sym]) -> Out {
+pub fn run_shape(sc: &Sc, st: St, list: &[Sym]) -> Out {
     let w = &sc.w;
     let ixs: Vec<Ix> = list.iter().map(|s| build_ix(sc, *s)).collect();
     let signers = [w.users[0].authority, w.users[1].authority, w.roles.risk];
